@@ -139,7 +139,16 @@ func decompressBounded(encoding string, data []byte, maxOutput int64) ([]byte, e
 		}
 		opts := []zstd.DOption{}
 		if maxOutput > 0 {
-			opts = append(opts, zstd.WithDecoderMaxMemory(uint64(maxOutput)))
+			// The decoder's memory bound is not the output cap: it reserves the
+			// format's minimum window (1 KiB) even for a smaller frame, so a
+			// bound below that refuses every frame, including ones whose
+			// content fits the cap. The output cap itself is enforced exactly
+			// by the bounded read below.
+			decoderMem := uint64(maxOutput)
+			if decoderMem < zstd.MinWindowSize {
+				decoderMem = zstd.MinWindowSize
+			}
+			opts = append(opts, zstd.WithDecoderMaxMemory(decoderMem))
 		}
 		zr, err := zstd.NewReader(bytes.NewReader(data), opts...)
 		if err != nil {
